@@ -186,8 +186,9 @@ def series_case(ctx):
     ctx.check("C16:cagr", close(ser.cagr(), R["cagr"]), got=float(ser.cagr()), want=R["cagr"], kind=kind, n=n)
     ks, L = collapse(list(lev), dates)
     g = 1 + float(ser.cagr())
-    if g >= 1e-4:
-        # (well-conditioned only: for 1+CAGR ~ 1e-20 the float CAGR cannot carry the information)
+    if 1e-4 <= g < 1e300:
+        # (well-conditioned only: for 1+CAGR ~ 1e-20 the float CAGR cannot carry the information, and a one-day
+        #  series that gains a factor 8 has a CAGR of 8^365 - beyond the float range, i.e. inf)
         ctx.check("C16:cagr-structural", close(g ** R["years"], L[-1] / L[0], 1e-9 + 1e-15 * R["years"] / g), years=R["years"],
                   got=g ** R["years"], want=L[-1] / L[0])
     ctx.check("C16:volatility", close(ser.volatility(), R["vol"]), got=float(ser.volatility()), want=R["vol"], kind=kind, n=n)
